@@ -341,49 +341,20 @@ func (n *Nodis) removeBlockingKeys(rc chan string, keys ...string) {
 }
 
 func (n *Nodis) BLPop(timeout time.Duration, keys ...string) (string, []byte) {
-	var c = make(chan string, 1)
-	defer n.removeBlockingKeys(c, keys...)
-	for _, key := range keys {
-		results := n.LPop(key, 1)
-		if results != nil {
-			n.notify(func() []patch.Op {
-				return []patch.Op{{Type: patch.OpTypeLPop, Data: &patch.OpLPop{Key: key}}}
-			})
-			return key, results[0]
-		}
-		n.addBlockKey(key, c)
-	}
-	// a timeout of zero blocks until an element arrives
-	var timer <-chan time.Time
-	if timeout != 0 {
-		timer = time.After(timeout)
-	}
-	select {
-	case key := <-c:
-		results := n.LPop(key, 1)
-		if results != nil {
-			n.notify(func() []patch.Op {
-				return []patch.Op{{Type: patch.OpTypeLPop, Data: &patch.OpLPop{Key: key}}}
-			})
-			return key, results[0]
-		}
-	case <-timer:
-		break
-	}
-	return "", nil
+	return n.blockingPop(timeout, n.LPop, keys...)
 }
 
 func (n *Nodis) BRPop(timeout time.Duration, keys ...string) (string, []byte) {
+	return n.blockingPop(timeout, n.RPop, keys...)
+}
+
+// blockingPop registers for wake-ups on every key before it looks at the lists, so a push made
+// at any later moment leaves a pending wake-up, and it keeps waiting until an element is
+// obtained or the timeout expires: a wake-up whose element went to another client is not an answer.
+func (n *Nodis) blockingPop(timeout time.Duration, pop func(key string, count int64) [][]byte, keys ...string) (string, []byte) {
 	var c = make(chan string, 1)
 	defer n.removeBlockingKeys(c, keys...)
 	for _, key := range keys {
-		results := n.RPop(key, 1)
-		if results != nil {
-			n.notify(func() []patch.Op {
-				return []patch.Op{{Type: patch.OpTypeRPop, Data: &patch.OpRPop{Key: key}}}
-			})
-			return key, results[0]
-		}
 		n.addBlockKey(key, c)
 	}
 	// a timeout of zero blocks until an element arrives
@@ -391,17 +362,17 @@ func (n *Nodis) BRPop(timeout time.Duration, keys ...string) (string, []byte) {
 	if timeout != 0 {
 		timer = time.After(timeout)
 	}
-	select {
-	case key := <-c:
-		results := n.RPop(key, 1)
-		if results != nil {
-			n.notify(func() []patch.Op {
-				return []patch.Op{{Type: patch.OpTypeRPop, Data: &patch.OpRPop{Key: key}}}
-			})
-			return key, results[0]
+	for {
+		for _, key := range keys {
+			results := pop(key, 1)
+			if results != nil {
+				return key, results[0]
+			}
 		}
-	case <-timer:
-		break
+		select {
+		case <-c:
+		case <-timer:
+			return "", nil
+		}
 	}
-	return "", nil
 }
